@@ -596,6 +596,25 @@ package erpc
 //@   loop 0: invariant[existing-kept] forall k string :: old(mapHas(H, k)) ==> mapHas(H, k) && H[k] == old(H[k])
 //@   loop 0: invariant[other-namespace-untouched] forall k string :: mapHas(O, k) == old(mapHas(O, k)) && O[k] == old(O[k])
 
+// the two fallbacks are separate slots: setting one never touches the other, and
+// the handler installed is a fresh unknown-handler for that kind
+//@ func (*Router).SetUnknownCall
+//@   property C10
+//@   flags libframe frame-unchecked
+//@   requires r.subRouter != nil && r.subRouter.pluginContainer != nil && r.subRouter.unknownCall != nil && r.subRouter.unknownPush != nil
+//@   requires?[container-wellformed] r.subRouter.pluginContainer.left != nil && r.subRouter.pluginContainer.middle != nil && r.subRouter.pluginContainer.right != nil
+//@   modifies r.subRouter.unknownCall, allof(type(PluginContainer)), allof(type(pluginSingleContainer)), allelems(type(Plugin))
+//@   ensures[call-fallback-installed] *r.subRouter.unknownCall != nil && fresh(*r.subRouter.unknownCall) && (*r.subRouter.unknownCall).isUnknown
+//@   ensures[push-fallback-untouched] r.subRouter.unknownPush == old(r.subRouter.unknownPush) && *r.subRouter.unknownPush == old(*r.subRouter.unknownPush)
+//@ func (*Router).SetUnknownPush
+//@   property C10
+//@   flags libframe frame-unchecked
+//@   requires r.subRouter != nil && r.subRouter.pluginContainer != nil && r.subRouter.unknownCall != nil && r.subRouter.unknownPush != nil
+//@   requires?[container-wellformed] r.subRouter.pluginContainer.left != nil && r.subRouter.pluginContainer.middle != nil && r.subRouter.pluginContainer.right != nil
+//@   modifies r.subRouter.unknownPush, allof(type(PluginContainer)), allof(type(pluginSingleContainer)), allelems(type(Plugin))
+//@   ensures[push-fallback-installed] *r.subRouter.unknownPush != nil && fresh(*r.subRouter.unknownPush) && (*r.subRouter.unknownPush).isUnknown
+//@   ensures[call-fallback-untouched] r.subRouter.unknownCall == old(r.subRouter.unknownCall) && *r.subRouter.unknownCall == old(*r.subRouter.unknownCall)
+
 // name mapping: total (no out-of-range write when an underscore is rewritten)
 //@ func toServiceMethods
 //@   property C10
